@@ -324,6 +324,7 @@ def run_case(case, stop_at=None):
             else:
                 sels[m["key"]] = (lambda X, c=list(m["sel"]): X[:, c])
     twins = [copy.deepcopy(det) for det in dets.values()]
+    pristine = [copy.deepcopy(det) for det in dets.values()]
     el = case["election"]
     election = {"majority": lambda: SimpleMajorityElection(), "min": lambda: MinimumApprovalElection(el[1]),
                 "ordered": lambda: OrderedApprovalElection(el[1], el[2]),
@@ -511,6 +512,7 @@ def run_case(case, stop_at=None):
         do_setref(0)
     verdicts = {"N": 0, "W": 0, "D": 0}
     t = 0
+    replace_at = set(int(x) for x in np.random.default_rng(case["data_seed"] + 2).integers(5, max(6, case["T"]), size=2))
     while alive and t < case["T"]:
         if stop_at is not None and step >= stop_at:
             break
@@ -575,6 +577,18 @@ def run_case(case, stop_at=None):
             do_reset()
         if alive and not stream and rrng.random() < 0.03:
             do_setref(t, bad=pick(rrng, ["narrow", "wide"]) if case["inject"] and rrng.random() < 0.2 else None)
+        # every third case: now and then the user replaces a member through the public `detectors` dict (same key, a new
+        # object of the same class and parameters): from then on "the members" are the objects in the dict -- the member loop,
+        # the views and the election all see the new one
+        if alive and case["idx"] % 3 == 1 and t in replace_at:
+            j = int(rrng.integers(0, n))
+            fresh = copy.deepcopy(pristine[j])
+            ens.detectors[keys[j]] = fresh
+            members[j] = fresh
+            twins[j] = copy.deepcopy(pristine[j])
+            count("member replaced through ensemble.detectors")
+            if not stream:
+                do_setref(t)
 
     head = "new ensemble " + " ".join(str(x) for x in el) + f" members {n} " + " ".join(
         f"{k} {len(s)} " + " ".join(s) for k, s in zip(keys, scripts))
